@@ -6,6 +6,23 @@ ALL = ["C%02d" % i for i in range(1, 21)]
 
 # id -> (category, technique, text, note)
 CHECKS = {
+    "C01": ("exploration",
+            "Hostile.tla mutation catalogue enumerated by TLC and applied at every matching item position of the spec's well-formed replies + "
+            "byte-level mutational/random fuzz through all 211 entry points; every execution trace-validated by TLC (Trace_Hostile.tla: "
+            "Call ... Return, no Panic/Hang event is a model step); termination of the exchange model checked as liveness",
+            "Structured: 46 mutation descriptors (truncate, drop terminator, boundary values in every numeric / textual-numeric / literal "
+            "count-flag-index byte, length prefixes, invalid text, oversize, empty, duplicated / dropped datagrams, wrong JSON member types) at "
+            "item positions of well-formed exchanges of every protocol query, game wrapper, the master-server service and the generic dispatch of "
+            "every non-HTTP definition row, with random engine / gather / retry settings; plus a byte-wise truncation sweep and havoc fuzz. A "
+            "panic, arithmetic overflow (overflow checks on), abort or exceeding the socket-operation bound is a violation.",
+            "Exploration, not proof. Trusted: harness panic/abort observation, scripted transport. Eco (ureq HTTP) is exercised by C07/C12 only."),
+    "C13": ("exploration",
+            "same executions as C01 with a counting global allocator; Trace_Hostile.tla (TLC) enforces on every recorded execution: requests "
+            "sent <= (r+1)*S + datagrams received, largest single allocation <= 16 MiB, live peak <= 64 MiB; SendsBounded model-checked on the exchange model",
+            "Extreme values in every length / count / size / index position of every layout (Hostile.tla boundary sets) and byte-level fuzz; the "
+            "harness's counting allocator reports per-call peak live bytes and the largest single request on the Return event, and TLC rejects "
+            "any trace outside the allowance or the request bound.",
+            "Measures requests made to the global allocator during the call on the calling thread. Exploration, not proof."),
     "C02": ("model_checking",
             "TLA+ layout specification (ValveLayout.tla) enumerated by TLC; every (section shape x transport shape) replayed "
             "into valve::query through the scripted transport and compared field by field; exchange behaviours of ValveA2S.tla replayed",
